@@ -744,7 +744,7 @@ fn tfail(clause: &str, detail: String) -> Verdict {
         signature: format!("C13/{}", clause),
         clause: clause.to_string(),
         detail,
-        props: &["C13", "C05"],
+        props: &["C13", "C05", "C04"],
     }
 }
 
